@@ -143,6 +143,28 @@ Definition prop_of (p : node) : result prop :=
   | _, _ => Err EOther
   end.
 
+(* the own sections of ONE definition file (entity or interface), applied to what has been collected so far:
+   Properties (a redefinition replaces the earlier entry and takes the later position), Volatile,
+   ClientMethods (the first definition of a name wins) *)
+Definition absorb (n : node) (a1 : acc) : result acc :=
+  let fix props (l : list node) (ps : list prop) : result (list prop) :=
+    match l with [] => Ok ps | p :: r => q <- prop_of p ;; props r (add_prop q ps) end in
+  ps <- match child n "Properties" with Some pr => props (kids_of pr) (a_props a1) | None => Ok (a_props a1) end ;;
+  let vol := match child n "Volatile" with
+             | Some v => fold_left (fun acc it =>
+                  let t := tag_of it in
+                  if (String.eqb t "position" || String.eqb t "yaw" || String.eqb t "pitch" || String.eqb t "roll")%bool
+                  then add_vol t acc else acc) (kids_of v) (a_vol a1)
+             | None => a_vol a1 end in
+  let fix meths (l : list node) (ms : list meth) : result (list meth) :=
+    match l with
+    | [] => Ok ms
+    | m :: r => mm <- method_of m ;; meths r (if has_method (m_name mm) ms then ms else ms ++ [mm])
+    end in
+  ms <- match child n "ClientMethods" with Some cm => meths (kids_of cm) (a_methods a1) | None => Ok (a_methods a1) end ;;
+  Ok {| a_props := ps; a_methods := ms; a_vol := vol |}.
+
+(* _parse_section: Implements first (each interface completely, recursively, in declaration order), then the own sections *)
 Fixpoint collect (fuel : nat) (n : node) (a : acc) {struct fuel} : result acc :=
   match fuel with
   | O => Err EFuel
@@ -157,22 +179,7 @@ Fixpoint collect (fuel : nat) (n : node) (a : acc) {struct fuel} : result acc :=
                    | None => Err EOther end
       end in
     a1 <- match child n "Implements" with Some imp => impls (kids_of imp) a | None => Ok a end ;;
-    let fix props (l : list node) (ps : list prop) : result (list prop) :=
-      match l with [] => Ok ps | p :: r => q <- prop_of p ;; props r (add_prop q ps) end in
-    ps <- match child n "Properties" with Some pr => props (kids_of pr) (a_props a1) | None => Ok (a_props a1) end ;;
-    let vol := match child n "Volatile" with
-               | Some v => fold_left (fun acc it =>
-                    let t := tag_of it in
-                    if (String.eqb t "position" || String.eqb t "yaw" || String.eqb t "pitch" || String.eqb t "roll")%bool
-                    then add_vol t acc else acc) (kids_of v) (a_vol a1)
-               | None => a_vol a1 end in
-    let fix meths (l : list node) (ms : list meth) : result (list meth) :=
-      match l with
-      | [] => Ok ms
-      | m :: r => mm <- method_of m ;; meths r (if has_method (m_name mm) ms then ms else ms ++ [mm])
-      end in
-    ms <- match child n "ClientMethods" with Some cm => meths (kids_of cm) (a_methods a1) | None => Ok (a_methods a1) end ;;
-    Ok {| a_props := ps; a_methods := ms; a_vol := vol |}
+    absorb n a1
   end.
 
 (* stable insertion sort *)
